@@ -178,6 +178,37 @@ def run(ctx):
                 ctx.ob("C18.R2b", inst, looks_further, fn.loc,
                        "empty() is answered from the head table alone: a default-constructed set that grew reports empty",
                        site="%s@placeholder-empty" % inst)
+    # ------------------------------------------------ R6 lookups walk the groups in the order insertion does
+    # (the clause is C03.R7; a sequential history breaks on it just as a concurrent one does - seed C18-2 - so it is armed here too)
+    class _Sub:
+        def __init__(self, outer):
+            self.outer = outer
+            self.fb = outer.fb
+            self.prop = "C03"
+            self.unmet = []
+            self.notes = []
+            self.n = 0
+
+        def ob(self, rule, instance, ok, where="", msg="", detail=None, site=None):
+            if rule in ("C03.R7", "C03.R7b"):
+                self.n += 1
+                return self.outer.ob(rule.replace("C03.R7", "C18.R6"), instance, ok, where, msg, detail, site)
+            return ok
+
+        def floor(self, *a):
+            pass
+
+        def note(self, m):
+            pass
+
+        def named(self, rule, found, name, rec_re=None):
+            return True if found else False
+
+        def broken(self, msg):
+            self.outer.broken(msg)
+    sub = _Sub(ctx)
+    C03.run(sub)
+    ctx.floor("C18.R6", sub.n, 3, "lookup/insert probe pairs")
     ctx.floor("C18.R1a", n14, 12, "loops over the table chain")
     ctx.floor("C18.R1b", n9, 6, "traversal iterators handed out")
 
